@@ -15,13 +15,15 @@ class _Canon(ast.NodeTransformer):
     def __init__(self, prog: Program, f: FunctionInfo, drop: Optional[Callable[[ast.stmt], bool]] = None):
         self.prog, self.f, self.drop = prog, f, drop
         self.names: Dict[str, str] = {}
+        self._nlocals = 0
         for i, p in enumerate(f.params):
             self.names[p] = f"p{i}"
 
     # --- names ---------------------------------------------------------------
     def _local(self, name: str) -> str:
         if name not in self.names:
-            self.names[name] = f"v{len(self.names)}"
+            self.names[name] = f"v{self._nlocals}"
+            self._nlocals += 1
         return self.names[name]
 
     def visit_Name(self, node: ast.Name):
